@@ -84,6 +84,27 @@ class MetaString(type):
         else:
             raise ValueError(f"{value} not a string")
 
+    def _rewrite(cls, buffer, offset, value):
+        """Replace the content of an existing string: the space fixed at
+        creation stays, a value that does not fit is refused"""
+        if cls._size is not None:
+            return cls._to_buffer(buffer, offset, value)
+        if isinstance(value, String):
+            value = value.to_str()
+        info = cls._inspect_args(value)
+        size = Int64._from_buffer(buffer, offset)
+        if isinstance(value, str):
+            needed = len(info.data) + 1 + 8
+        else:
+            needed = info.size
+        if needed > size:
+            raise ValueError(
+                f"`{value}` does not fit in the {size - 8} bytes reserved "
+                "for the string"
+            )
+        info.size = size
+        cls._to_buffer(buffer, offset, value, info)
+
     def _get_data(cls, buffer, offset):
         ll = Int64._from_buffer(buffer, offset)
         return buffer.to_bytearray(offset + 8, ll - 8)
